@@ -481,6 +481,44 @@ theorem runs_exactly_once (base : Int) (scripts : List (List Op)) (ops : List To
     | cancelled => exact Or.inr (hc.2.1.mp hst)
     | called => exact Or.inl (hc.1.mp hst)
 
+/-! ### timed calls that raise
+
+A user function may raise — any exception class, inside or outside the `Exception` hierarchy;
+`runUntilCurrent` logs the failure and goes on (`Stmt`, `executed` in `TwistedModel/Reactor/Timers`).
+The theorems above quantify over ALL script tables, hence over the executed parts of all tables of
+bodies that raise: the property holds of every history in which calls raise, in particular the
+remaining due calls run in the same iteration and the raising call counts as run. -/
+
+theorem raising_history_trace_ok (base : Int) (progs : List (List Stmt)) (ops : List Top) :
+    check (Ref.init base) (exec (Sys.initProg base progs) ops).2 :=
+  history_trace_ok base (progs.map executed) ops
+
+theorem raising_runs_exactly_once (base : Int) (progs : List (List Stmt)) (ops : List Top) :
+    let tr := (exec (Sys.initProg base progs) ops).2
+    (runIds tr).Nodup ∧
+    (∀ pre id snap post, tr = pre ++ Ev.run id snap :: post →
+      let r := refRun (Ref.init base) pre
+      r.inIter = true ∧ id < r.n0 ∧ r.n0 ≤ r.n ∧
+      ¬ wasCancelled id pre ∧ id ∉ runIds pre ∧
+      r.T id ≤ r.now ∧ snap.now = r.now ∧
+      (∀ j, j < r.n → j ≠ id → r.st j = St.pending → (j < r.n0 ∨ r.now ≤ r.T j) → r.T id ≤ r.T j)) ∧
+    (∀ pre post, tr = pre ++ Ev.iterEnd :: post →
+      let r := refRun (Ref.init base) pre
+      ∀ id, id < r.n0 → r.T id ≤ r.now → id ∈ runIds pre ∨ wasCancelled id pre) :=
+  runs_exactly_once base (progs.map executed) ops
+
+/-- a body without `raise` is executed whole; nothing after a `raise` is executed -/
+theorem executed_no_raise (os : List Op) : executed (os.map Stmt.op) = os := by
+  induction os with
+  | nil => rfl
+  | cons o os ih => simp [executed, ih]
+
+theorem executed_until_raise (os : List Op) (k : Nat) (rest : List Stmt) :
+    executed (os.map Stmt.op ++ Stmt.raise k :: rest) = os := by
+  induction os with
+  | nil => rfl
+  | cons o os ih => simp [executed, ih]
+
 /-! ### the ordering clause for histories that never move a call before the clock
 (in particular: non-negative `delay()`/`reset()` arguments — the histories of the property's text) -/
 
@@ -796,6 +834,14 @@ example : (getDelayedCalls (exec (Sys.init 0 [[]])
 
 example : (timeout (exec (Sys.init 5 [[]]) [Top.user (Op.callLater 16 0), Top.user (Op.delay 0 (-4))]).1).2
       = some 12 := by decide
+
+/-- non-vacuity of the raising-call theorems: call 0 resets call 2 to now and then raises (its
+    `cancel 1` is not executed); call 1 raises at once; all three run in the iteration at 16 -/
+example :
+    runLog (exec (Sys.initProg 0 [[Stmt.op (Op.reset 2 0), Stmt.raise 1, Stmt.op (Op.cancel 1)], [Stmt.raise 2]])
+      [Top.user (Op.callLater 16 0), Top.user (Op.callLater 16 1), Top.user (Op.callLater 80 1),
+       Top.advance 16, Top.iterate, Top.user (Op.cancel 0)]).2
+      = [(0, 16), (1, 16), (2, 16)] := by decide
 
 /-- non-vacuity of `check`: it rejects a call entered outside any iteration … -/
 example : ¬ check (Ref.init 0) [Ev.run 0 (Sys.init 0 [])] := by
